@@ -376,7 +376,8 @@ class _tzfile(object):
     information read from binary tzfiles.
     """
     attrs = ['trans_list', 'trans_list_utc', 'trans_idx', 'ttinfo_list',
-             'ttinfo_std', 'ttinfo_dst', 'ttinfo_before', 'ttinfo_first']
+             'ttinfo_std', 'ttinfo_dst', 'ttinfo_before', 'ttinfo_first',
+             'trans_list_wall']
 
     def __init__(self, **kwargs):
         for attr in self.attrs:
@@ -703,6 +704,22 @@ class tzfile(_tzinfo):
 
             out.trans_list.append(out.trans_list_utc[i] + adjustment)
 
+        # Wall-clock transition times, indexed by fold. A transition takes
+        # effect when the outgoing clock reaches it; when the clock is set
+        # back, the fold=1 reading has already passed it an offset change
+        # earlier. Times skipped by a forward change use the new offset.
+        trans_list_wall = ([], [])
+        for i, tti in enumerate(out.trans_idx):
+            if i > 0:
+                before = out.trans_idx[i - 1].offset
+            else:
+                before = out.ttinfo_before.offset
+            after = tti.offset
+            trans_list_wall[0].append(out.trans_list_utc[i] + before)
+            trans_list_wall[1].append(out.trans_list_utc[i] + min(before, after))
+        out.trans_list_wall = (tuple(trans_list_wall[0]),
+                               tuple(trans_list_wall[1]))
+
         out.trans_idx = tuple(out.trans_idx)
         out.trans_list = tuple(out.trans_list)
         out.trans_list_utc = tuple(out.trans_list_utc)
@@ -718,7 +735,10 @@ class tzfile(_tzinfo):
 
         # Find where the timestamp fits in the transition list - if the
         # timestamp is a transition time, it's part of the "after" period.
-        trans_list = self._trans_list_utc if in_utc else self._trans_list
+        if in_utc:
+            trans_list = self._trans_list_utc
+        else:
+            trans_list = self._trans_list_wall[self._fold(dt)]
         idx = bisect.bisect_right(trans_list, timestamp)
 
         # We want to know when the previous transition was, so subtract off 1
@@ -790,33 +810,34 @@ class tzfile(_tzinfo):
 
         .. versionadded:: 2.6.0
         """
-        if idx is None:
-            idx = self._find_last_transition(dt)
-
-        # Calculate the difference in offsets from current to previous
-        timestamp = _datetime_to_timestamp(dt)
-        tti = self._get_ttinfo(idx)
-
-        if idx is None or idx <= 0:
+        if not self._trans_list:
             return False
 
-        od = self._get_ttinfo(idx - 1).offset - tti.offset
-        tt = self._trans_list[idx]          # Transition time
+        timestamp = _datetime_to_timestamp(dt)
 
-        return timestamp < tt + od
+        if idx is None:
+            # The wall time is ambiguous if the fold=1 reading has already
+            # passed a transition that the fold=0 reading has not.
+            idx = bisect.bisect_right(self._trans_list_wall[1], timestamp) - 1
+            idx0 = bisect.bisect_right(self._trans_list_wall[0], timestamp) - 1
+            if idx == idx0:
+                return False
+
+        if idx < 0:
+            return False
+
+        # Only a backward change of the wall clock repeats wall times
+        return (self._trans_list_wall[1][idx] <= timestamp <
+                self._trans_list_wall[0][idx] and
+                self._offset_before(idx) > self._trans_idx[idx].offset)
+
+    def _offset_before(self, idx):
+        if idx > 0:
+            return self._trans_idx[idx - 1].offset
+        return self._ttinfo_before.offset
 
     def _resolve_ambiguous_time(self, dt):
-        idx = self._find_last_transition(dt)
-
-        # If we have no transitions, return the index
-        _fold = self._fold(dt)
-        if idx is None or idx == 0:
-            return idx
-
-        # If it's ambiguous and we're in a fold, shift to a different index.
-        idx_offset = int(not _fold and self.is_ambiguous(dt, idx))
-
-        return idx - idx_offset
+        return self._find_last_transition(dt)
 
     def utcoffset(self, dt):
         if dt is None:
